@@ -216,6 +216,43 @@ class Explorer:
             raise Inconclusive("validity query unknown: " + self.solver.reason_unknown())
         return self.get_model()
 
+    def nice_model(self, snap_vars, extra=()):
+        """A model of pc (+extra) in which the listed variables take small-denominator values
+        (needed where the real code applies limit_denominator(10**6): assumption A-LD).
+        Greedy: fix one variable at a time to a nearby simple fraction if that stays satisfiable."""
+        extra = list(extra)
+        r = self.check(*extra)
+        if r != z3.sat:
+            return None
+        m = self.get_model()
+        fixed = []
+        for v in snap_vars:
+            val = m.eval(v, model_completion=True)
+            if not z3.is_rational_value(val):
+                return None
+            x = val.as_fraction()
+            if x.denominator <= 1000:
+                fixed.append(v == val)
+                continue
+            done = False
+            cands = []
+            for d in (1, 2, 3, 4, 6, 12, 60, 1000):
+                c = x.limit_denominator(d)
+                if c not in cands:
+                    cands.append(c)
+            for c in cands:
+                eqc = v == z3.Q(c.numerator, c.denominator)
+                if self.check(*(extra + fixed + [eqc])) == z3.sat:
+                    m = self.get_model()
+                    fixed.append(eqc)
+                    done = True
+                    break
+            if not done:
+                return None
+        if self.check(*(extra + fixed)) != z3.sat:
+            return None
+        return self.get_model()
+
     def satisfiable(self, cond) -> bool:
         if isinstance(cond, bool):
             return cond
@@ -653,6 +690,7 @@ class Ctx:
         self.violations = []
         self.asserted = 0  # number of require() calls reached (vacuity guard)
         self.notes = {}
+        self.snap = []  # z3 vars that must get small denominators in models (A-LD)
         self.path_index = 0
         self.canary = None  # name of an intentionally-wrong oracle variant to use
         self.canary_hit = False
@@ -660,10 +698,12 @@ class Ctx:
     sym = property(lambda s: s.mode == "sym")
 
     # ---- inputs ----
-    def real(self, name, lo=None, hi=None, lo_strict=False):
+    def real(self, name, lo=None, hi=None, lo_strict=False, snap=False):
         if self.sym:
             v = z3.Real(name)
             self.vars[name] = v
+            if snap:
+                self.snap.append(v)
             if lo is not None:
                 self.ex.assume(v > lo if lo_strict else v >= lo)
             if hi is not None:
@@ -734,6 +774,9 @@ class Ctx:
         self.asserted += 1
         if self.sym:
             m = self.ex.valid(cond)
+            if m is not None and self.snap:
+                m2 = self.ex.nice_model(self.snap, [] if isinstance(cond, bool) else [z3.Not(cond)])
+                m = m2 if m2 is not None else m
             if m is not None:
                 self.violations.append(
                     Violation(label, detail, model_to_dict(m, self.vars), list(self.ex.script), self.path_index))
@@ -744,6 +787,18 @@ class Ctx:
         if not cond:
             raise ConcViolation(label, detail)
         return True
+
+    def path_model(self):
+        """model of the path condition (small denominators for snap vars), as dict, or None"""
+        if self.snap:
+            m = self.ex.nice_model(self.snap)
+            if m is None:
+                return None
+        else:
+            if self.ex.check() != z3.sat:
+                return None
+            m = self.ex.get_model()
+        return model_to_dict(m, self.vars)
 
     def fail(self, label, detail=""):
         return self.require(False, label, detail)
